@@ -127,3 +127,130 @@ class Interleaver:
             while not v.done:
                 self._step(v)
             v.thread.join(5)
+
+
+# ---------------------------------------------------------------------------------------------
+# ThreadRace: several sync jobs on real threads, pre-empted at bytecode boundaries of a set of code
+# objects; the seeded scheduler picks who advances.  (Used for validations racing with each other
+# on executor threads.)
+# ---------------------------------------------------------------------------------------------
+
+def nested_codes(obj, seen=None):
+    """code objects of a function / code object and everything nested in it (closures, genexprs)"""
+    seen = seen if seen is not None else set()
+    code = getattr(obj, "__code__", obj)
+    if not hasattr(code, "co_consts") or code in seen:
+        return seen
+    seen.add(code)
+    for c in code.co_consts:
+        if hasattr(c, "co_consts"):
+            nested_codes(c, seen)
+    return seen
+
+
+def module_codes(mod, seen=None):
+    seen = seen if seen is not None else set()
+    for v in list(vars(mod).values()):
+        if callable(v) and getattr(v, "__module__", None) == mod.__name__:
+            if hasattr(v, "__code__"):
+                nested_codes(v, seen)
+            elif isinstance(v, type):
+                for m in vars(v).values():
+                    f = getattr(m, "__func__", m)
+                    if hasattr(f, "__code__"):
+                        nested_codes(f, seen)
+    return seen
+
+
+class RaceJob:
+    def __init__(self, idx, fn):
+        self.idx = idx
+        self.fn = fn
+        self.go = threading.Event()
+        self.parked = threading.Event()
+        self.started = False
+        self.done = False
+        self.result = None
+        self.exc = None
+        self.steps = 0
+        self.thread = threading.Thread(target=self._run, name="race-%d" % idx, daemon=True)
+
+    def _run(self):
+        try:
+            self.result = self.fn()
+        except BaseException as e:  # noqa
+            self.exc = e
+        self.done = True
+        self.parked.set()
+
+
+class ThreadRace:
+    def __init__(self, sim, codes, fns, weights=None):
+        self.sim = sim
+        self.codes = list(codes)
+        self.jobs = [RaceJob(i, f) for i, f in enumerate(fns)]
+        self.by_thread = {}
+        self.weights = weights or {"stay": 10.0, "switch": 1.0, "start": 1.0}
+        self.boundaries = 0
+        self.switches = 0
+        self.active = False
+
+    def _cb(self, code, offset):
+        if not self.active:
+            return
+        j = self.by_thread.get(threading.current_thread())
+        if j is not None:
+            j.steps += 1
+            j.parked.set()
+            j.go.wait()
+            j.go.clear()
+
+    def _step(self, j):
+        if not j.started:
+            j.started = True
+            self.by_thread[j.thread] = j
+            j.thread.start()
+        else:
+            j.go.set()
+        if not j.parked.wait(30):
+            raise RuntimeError("race job %d does not reach a boundary" % j.idx)
+        j.parked.clear()
+
+    def run(self):
+        m = sys.monitoring
+        m.use_tool_id(TOOL, "nrsim-race")
+        m.register_callback(TOOL, m.events.INSTRUCTION, self._cb)
+        for c in self.codes:
+            m.set_local_events(TOOL, c, m.events.INSTRUCTION)
+        self.active = True
+        cur = None
+        try:
+            while True:
+                live = [j for j in self.jobs if not j.done]
+                if not live:
+                    break
+                w = []
+                for j in live:
+                    if j is cur:
+                        w.append(self.weights["stay"])
+                    elif not j.started:
+                        w.append(self.weights["start"])
+                    else:
+                        w.append(self.weights["switch"])
+                nxt = live[self.sim.choose(len(live), w)] if len(live) > 1 else live[0]
+                if nxt is not cur:
+                    self.switches += 1
+                cur = nxt
+                self.boundaries += 1
+                self._step(cur)
+        finally:
+            self.active = False
+            for c in self.codes:
+                m.set_local_events(TOOL, c, 0)
+            m.register_callback(TOOL, m.events.INSTRUCTION, None)
+            m.free_tool_id(TOOL)
+            for j in self.jobs:
+                j.go.set()
+        for j in self.jobs:
+            j.thread.join(5)
+        return self.jobs
